@@ -91,6 +91,26 @@ CHECKS = {
         "History of quantitative features speaks in interval labels, resolved through the raw-distribution row; small-scope datasets.",
         "DESIGN.md §3 C16",
     ),
+    "C05": (
+        "E1-space",
+        "bounded-exhaustive fault enumeration: every frame of <= 2 rows over a row alphabet, on every fitted object of a reduced space",
+        "For fitted Discretizer-family objects and BinaryCarvers of every kind (with/without default group, with/without missing values at "
+        "fit, output_dtype x dropna), every frame of 0, 1 or 2 rows over the row alphabet (seen, unseen string/int/float, missing, "
+        "below-min, above-max, boundary-neighbour doubles, +-1e300, string form of a seen number) and the training frame with one row "
+        "replaced is transformed; the outcome must be an AssertionError naming the feature exactly when required, else only fitted labels.",
+        "The fitted label set is read from labels_per_values; +-inf and strings in quantitative columns are outside the quantifier.",
+        "DESIGN.md §3 C05",
+    ),
+    "C06": (
+        "E1-space",
+        "bounded-exhaustive search over a value-type alphabet; differential oracle original vs reloaded object",
+        "Over quantitative (float64, float32, int64, 1e299, 1e-300, negative, x+202300) and qualitative (strings, number-looking strings, "
+        "python/numpy ints, floats, integer-valued floats, mixed) columns, small tables, with/without missing cell, for the three carvers "
+        "and the Discretizer family: json.dumps(to_json()) must succeed and the reloaded object must give the same transform outcome on "
+        "the training frame, on every one-row frame of the C05 alphabet and on the empty frame, the same summary and the same JSON again.",
+        "Differential: no expected value is hand-written; small tables (k<=3).",
+        "DESIGN.md §3 C06",
+    ),
 }
 
 NOT_BUILT = "check not built yet (work in progress, see DESIGN.md §7 for the order)"
